@@ -708,8 +708,54 @@ def run(ctx, anchors=None):
         ctx.ok("R01.9", "skipped-operations-write-only-bookkeeping", opstep.loc(), "the %d state writes that can run while %s is false go to %s; the opcodes acting in a skipped branch are %s"
                % (n9, FX9, ", ".join(sorted(BOOKKEEPING)), ", ".join(sorted(admitted_short))))
 
+    # ---- R01.10 which script versions the minimal-IF rules apply to: in the OP_IF / OP_NOTIF case (evaluated path by path by
+    # G-SYM), a path that returns SCRIPT_ERR_MINIMALIF has decided sigversion == WITNESS_V0 and the MINIMALIF flag; one that returns
+    # SCRIPT_ERR_TAPSCRIPT_MINIMALIF has decided sigversion == TAPSCRIPT. (Legacy scripts take any IF argument.)
+    ctx.rule("R01.10", "the minimal-IF errors are returned only for the script version they belong to (witness v0 with the flag / tapscript)")
+    errs = {c_["n"]: c_["v"] for e_ in fb.enums if e_["name"] in ("ScriptError_t", "ScriptError") for c_ in e_["consts"]}
+    sv_vals = {c_["n"]: c_["v"] for c_ in fb.enum("SigVersion")["consts"]}
+    if "SCRIPT_ERR_MINIMALIF" not in errs or "SCRIPT_ERR_TAPSCRIPT_MINIMALIF" not in errs:
+        raise AnalysisBroken("R01.10: the minimal-IF error codes are not in the ScriptError enumeration")
+    sw10 = [w for w in S.find_switches(opstep) if is_opc9(w["cond"]) or (w["cond"].get("k") == "cast" and is_opc9(w["cond"]["e"]))]
+    grp10 = [g for w in sw10 for g in S.case_groups(w) if g.switch is w and "OP_IF" in g.short_names()]
+    if len(grp10) != 1:
+        raise AnalysisBroken("R01.10: expected one OP_IF case group in the operation step, found %d" % len(grp10))
+    from .. import symx as _sx10
+    X10 = _sx10.Explorer(prog, inline=lambda fn, n_: False, transparent=lambda n_: True)
+    outs10 = []
+    try:
+        for st in grp10[0].stmts:
+            if st.get("k") in ("block", "if"):
+                outs10 += X10.explore(opstep, body=st, limit=4000)
+    except _sx10.Unsupported as e:
+        raise AnalysisBroken("R01.10: the OP_IF case was not evaluated (%s)" % str(e)[:60])
+    want10 = {errs["SCRIPT_ERR_MINIMALIF"]: ("WITNESS_V0", True), errs["SCRIPT_ERR_TAPSCRIPT_MINIMALIF"]: ("TAPSCRIPT", False)}
+    n10 = 0
+    bad10 = None
+    for o in outs10:
+        r_ = o.ret
+        if not (o.status == "ret" and isinstance(r_, tuple) and r_[0] == "ap" and r_[1] == "set_error" and len(r_) == 4):
+            continue
+        codes = [r_[3][1]] if _sx10.is_const(r_[3]) else [y[1] for y in _sx10.subterms(r_[3]) if _sx10.is_const(y) and y[1] in want10]
+        for code in codes:
+            if code not in want10:
+                continue
+            n10 += 1
+            ver, needs_flag = want10[code]
+            decided_ver = any(isinstance(t_, tuple) and t_[0] == "eq" and _sx10.C(sv_vals[ver]) in t_[1:3] and v_ and
+                              any(isinstance(y, tuple) and y in (("a", "sigversion"),) or (isinstance(y, tuple) and y[0] == "f" and y[-1] == "sigversion") for y in t_[1:3]) for (t_, v_) in o.conds)
+            decided_flag = (not needs_flag) or any(v_ and isinstance(t_, tuple) and t_[0] == "ap" and t_[1] == "&" and any(("flags" in _sx10.show(y)) for y in t_[2:4]) for (t_, v_) in o.conds)
+            if not (decided_ver and decided_flag):
+                bad10 = ([k_ for k_, v_ in errs.items() if v_ == code][0], ver, "; ".join("%s=%s" % (_sx10.show(t_)[:30], v_) for (t_, v_) in o.conds[:6]))
+    ctx.site(len(outs10))
+    ctx.floor("R01.10", n10, 2, "paths of the OP_IF case returning a minimal-IF error")
+    ctx.inst(bad10 is None, "R01.10", "minimal-if-version-scope", opstep.loc(grp10[0].labels[0][2]), "each of the %d paths returning a minimal-IF error decided its own script version (and, for witness v0, the flag)" % n10,
+             "a path of the OP_IF case returns %s without having decided sigversion == %s%s (decided: %s): the rule is applied to scripts of another version - legacy scripts with a non-minimal IF argument fail although Bitcoin takes the branch"
+             % ((bad10[0], bad10[1], " and the MINIMALIF flag" if bad10[1] == "WITNESS_V0" else "", bad10[2]) if bad10 else ("", "", "", "")))
+
 
 MUTANTS = [
+    dict(name="minimalif-for-every-script-version", file="script/interpreter.cpp", find="                        if (sigversion == SigVersion::WITNESS_V0 && (flags & SCRIPT_VERIFY_MINIMALIF)) {", replace="                        if (sigversion != SigVersion::TAPSCRIPT && (flags & SCRIPT_VERIFY_MINIMALIF)) {", expect=["R01.10:minimal-if-version-scope"]),
     dict(name="codeseparator-acts-in-a-skipped-branch", file="script/interpreter.cpp", find="            if (fExec && 0 <= opcode && opcode <= OP_PUSHDATA4) {", replace="            if (opcode == OP_CODESEPARATOR) execdata.m_codeseparator_pos = opcode_pos;\n            if (fExec && 0 <= opcode && opcode <= OP_PUSHDATA4) {", expect=["R01.9:skipped-operation-writes:execdata"]),
     dict(name="push-lands-in-a-skipped-branch", file="script/interpreter.cpp", find="            if (fExec && 0 <= opcode && opcode <= OP_PUSHDATA4) {", replace="            if (0 <= opcode && opcode <= OP_PUSHDATA4) {", expect=["R01.9:skipped-operation-writes:stack"]),
     dict(name="altstack-survives-the-script-switch", file="debugger/interpreter.cpp", find="        env.altstack.clear(); // every script starts with an empty alt stack\n        if (", replace="        if (", expect=["R01.5:reinit:altstack"]),
